@@ -19,7 +19,7 @@ THEOREMS = ["Ymq.C10." + t for t in (
     "basic_mul_spec karatsuba_spec karatsuba_domain mul_karatsuba_spec mul_karatsuba_zmod "
     "middlemul_spec middlemul_pub_spec inv_mod_xn_spec div_mod_xn_spec div_mod_xn_zmod "
     "product_tree_spec from_roots_spec multi_eval_tree_spec multi_eval_spec multi_eval_zmod roots_eval_direct_spec "
-    "mul_spec fft_spec mulfft_spec mulfft_exact kronecker_cyclic_fft roots_eval_spec roots_eval_zmod crt_q_estimate fint_mul_karatsuba").split()]
+    "mul_spec fft_spec mulfft_spec mulfft_exact kronecker_cyclic_fft roots_eval_spec roots_eval_zmod crt_q_estimate fint_mul_karatsuba crt_spec").split()]
 HYPOTHESES = []
 PROFILES = ["release", "chk"]
 TIMEOUT = 60.0
@@ -1125,7 +1125,8 @@ CLAIM = ("Lean theorems, for all inputs, about executable models of arith_fft.rs
          "assumed except exact ZmodN arithmetic (C07). (3) MultiZmodP: arithmetic statements only: the CRT quotient is unique and < w, "
          "the assembled value is congruent to the reconstructed integer, the truncated quotient estimate is exact under stated bounds "
          "(crt_q_estimate_partial), the model's quotient estimate (three branches, shifted two-word reads, u128 sums) returns the CRT "
-         "quotient on the tables built by the model of MultiZmodP::new (crt_q_estimate), the translated prime table is pairwise coprime with Montgomery "
+         "quotient on the tables built by the model of MultiZmodP::new (crt_q_estimate), _crt reaches no panic site and writes exactly "
+         "pprods_modn[q] + sum xs_j crt_p_modn[j] (crt_spec: mg_mul64 via C07, u128 column sums, carry assert), the translated prime table is pairwise coprime with Montgomery "
          "constant p-2 and generators of order exactly 2^32 (ntt_table_ok); dft_conv (any commutative ring) is NOT instantiated for "
          "ntt_inplace. (4) arith_poly over any commutative-ring image of the coefficient operations, no panic site reached: _basic_mul and "
          "karatsuba (all operand lengths after the fix, buffer reuse, stale buffers) = product; _middlemul (HQZ) = middle slice; "
@@ -1139,8 +1140,9 @@ LEVEL_NOTE = ("Trusted: Lean kernel (+propext, Classical.choice, Quot.sound); th
               "the harness in both profiles, not proved); the translator for the dispatch table and the prime table; Python integers in the oracle. "
               "NO THEOREM, tied to the schoolbook specification by K/O only: MultiZmodP::ntt_inplace and the NTT-based "
               "convolve_modn_ntt at word level (exact convolution inside the arith_poly models), Poly::mul_fft, roots_eval with |b| = 1. "
-              "crt_q_estimate covers the quotient estimate of _crt only: from_mint, the column loop of _crt and redc, and that V < P/2 for the values "
-              "_crt is called on, are checked by K/O (mzp_crt, mzp_redc) only. The arith_poly theorems are about models over abstract "
+              "crt_spec covers _crt (mg_mul64, quotient estimate, column loop, carry assert) on the tables of the model of MultiZmodP::new; "
+              "from_mint, redc, pprods_modn[q] = -qP mod n, and that V < P/2 for the values _crt is called on, are checked by K/O (mzp_new, "
+              "mzp_from_mint, mzp_crt, mzp_redc) only. The arith_poly theorems are about models over abstract "
               "coefficient operations (Hom/HomE/HomC: ring homomorphic image, sound zn.inv, == is equality of residues); natOps n (what the "
               "driver runs) is proved to be such an instance for ZMod n. ZmodN operations are exact modular arithmetic on the domain proved in "
               "C07; bnum operators are Nat arithmetic.")
